@@ -272,7 +272,11 @@ func runC26(r *Report) {
 	}
 	// R26f cancel: drainer before lock
 	n := 0
-	for _, fn := range p.Funcs("rueidis.(*subs).Subscribe$") {
+	var cancelScope []*ssa.Function
+	if sub := p.Fn("rueidis.(*subs).Subscribe"); sub != nil {
+		cancelScope = WithHelpers(p, sub)[1:] // its closures, and a cancel method only they call
+	}
+	for _, fn := range cancelScope {
 		if len(CallSites(fn, "rueidis.(*subs).remove")) == 0 {
 			continue
 		}
@@ -411,49 +415,61 @@ func runC26(r *Report) {
 	if fn := r.FnAnchor("R26c", "rueidis.(*pipe).Receive"); fn != nil {
 		// every receive from the subscription channel feeds fn
 		nRecv := 0
-		for _, b := range fn.Blocks {
-			for _, in := range b.Instrs {
-				var msg ssa.Value
-				var at Site
-				switch x := in.(type) {
-				case *ssa.UnOp:
-					if x.Op == token.ARROW && strings.Contains(shortType(x.X.Type()), "PubSubMessage") {
-						msg, at = x, SiteOf(in)
-					}
-				case *ssa.Select:
-					for i, st := range x.States {
-						if st.Dir == 2 /* RecvOnly */ && strings.Contains(shortType(st.Chan.Type()), "PubSubMessage") {
-							_ = i
+		scope := WithHelpers(p, fn) // the delivery loop may be a helper that is handed the channel and the callback
+		for _, f := range scope {
+			// the callback: Receive's own parameter, or the helper's parameter of the same type
+			var cb ssa.Value
+			for _, prm := range f.Params {
+				if strings.Contains(shortType(prm.Type()), "func(") && strings.Contains(shortType(prm.Type()), "PubSubMessage") {
+					cb = prm
+				}
+			}
+			for _, b := range f.Blocks {
+				for _, in := range b.Instrs {
+					var msg ssa.Value
+					var at Site
+					switch x := in.(type) {
+					case *ssa.UnOp:
+						if x.Op == token.ARROW && strings.Contains(shortType(x.X.Type()), "PubSubMessage") {
 							msg, at = x, SiteOf(in)
 						}
+					case *ssa.Select:
+						for i, st := range x.States {
+							if st.Dir == 2 /* RecvOnly */ && strings.Contains(shortType(st.Chan.Type()), "PubSubMessage") {
+								_ = i
+								msg, at = x, SiteOf(in)
+							}
+						}
 					}
-				}
-				if msg == nil {
-					continue
-				}
-				nRecv++
-				delivered := false
-				for _, cs := range Sites(fn, func(in ssa.Instruction) bool {
-					c, ok := in.(*ssa.Call)
-					return ok && Desc(c.Call.Value) == "p3"
-				}) {
-					arg := cs.Call().Common().Args[0]
-					if DependsOn(arg, func(v ssa.Value) bool { return v == msg }) && at.Block.Dominates(cs.Block) {
-						delivered = true
+					if msg == nil {
+						continue
 					}
+					nRecv++
+					delivered := false
+					for _, cs := range Sites(f, func(in ssa.Instruction) bool {
+						c, ok := in.(*ssa.Call)
+						return ok && cb != nil && c.Call.Value == cb
+					}) {
+						arg := cs.Call().Common().Args[0]
+						if DependsOn(arg, func(v ssa.Value) bool { return v == msg }) && at.Block.Dominates(cs.Block) {
+							delivered = true
+						}
+					}
+					r.ObSite("R26c", at, "received-message-delivered", delivered, "a message received from the subscription channel is handed to the callback")
 				}
-				r.ObSite("R26c", at, "received-message-delivered", delivered, "a message received from the subscription channel is handed to the callback")
 			}
 		}
 		r.Anchor("R26c", "Receive: channel receives (2 arms)", nRecv >= 2)
 		// ctx arm
 		ctxErr := false
-		for _, s := range Sites(fn, func(in ssa.Instruction) bool {
-			c, ok := in.(ssa.CallInstruction)
-			return ok && CalleeName(c) == "iface:context.Context.Err"
-		}) {
-			_ = s
-			ctxErr = true
+		for _, f := range scope {
+			for _, s := range Sites(f, func(in ssa.Instruction) bool {
+				c, ok := in.(ssa.CallInstruction)
+				return ok && CalleeName(c) == "iface:context.Context.Err"
+			}) {
+				_ = s
+				ctxErr = true
+			}
 		}
 		r.Ob("R26c", fn, "context-arm-returns-ctx-error", fn.Pos(), ctxErr, "the context arm of Receive's select reports ctx.Err()")
 		nilRepl := false
